@@ -3,7 +3,7 @@
 # usage: tools/eval_seeded.sh <dir with patch.diff, demo_test.go, notes.md> <id> <property> [more properties...]
 # Works on a scratch copy of /repo outside /repo and /verif, removed afterwards.
 set -u
-src="$1"; id="$2"; shift 2; props="$@"
+src="$(cd "$1" && pwd)"; id="$2"; shift 2; props="$@"
 V="$(cd "$(dirname "$0")/.." && pwd)"
 export GOFLAGS=-mod=mod GOPROXY=off GOSUMDB=off GOTOOLCHAIN=local
 S=/tmp/ev-$id-$$
@@ -23,7 +23,7 @@ echo "$id: suite_ok_packages=$suite demo_with_change_exit=$with demo_without_cha
 confirmed=false
 if [ "$suite" = "2" ] && [ $with -ne 0 ] && [ $without -eq 0 ]; then confirmed=true; fi
 mkdir -p "$V/seeded/$id"
-cp "$src/patch.diff" "$src/demo_test.go" "$V/seeded/$id/" ; cp "$src/notes.md" "$V/seeded/$id/notes.md" 2>/dev/null
+if [ "$src" != "$V/seeded/$id" ]; then cp "$src/patch.diff" "$src/demo_test.go" "$V/seeded/$id/" ; cp "$src/notes.md" "$V/seeded/$id/notes.md" 2>/dev/null; fi
 detected=""
 for p in $props; do
   out=$(cd "$V" && VERIF_REPO="$S" VERIF_BUDGET_S=${SEED_BUDGET_S:-30} ./check $p quick 2>&1); e=$?
